@@ -78,9 +78,33 @@ where
             loop {
                 let request = recv_request.recv().await?;
 
-                frame
+                let written = frame
                     .write_async::<MessageRequest<S>, _>(Pin::new(&mut stdin), &request)
-                    .await?;
+                    .await;
+                if let Err(err) = written {
+                    // The child went away while it was idle, or while it
+                    // was taking the request in (one larger than its
+                    // memory limit, say). That is this request's answer;
+                    // the next one gets a new child.
+                    let err = match err {
+                        Error::WriteFailed(ref io) if io.kind() == ErrorKind::BrokenPipe => {
+                            Error::Crashed
+                        }
+                        err => err,
+                    };
+                    send_response
+                        .send(Err(err))
+                        .await
+                        .map_err(|_| Error::Send("response to caller"))?;
+                    match process.kill() {
+                        Ok(()) => {}
+                        Err(ref err)
+                            if err.kind() == ErrorKind::PermissionDenied
+                                || err.kind() == ErrorKind::InvalidInput => {}
+                        Err(err) => return Err(err.into()),
+                    };
+                    break;
+                }
 
                 let interrupt = async {
                     ctrlc.next().await;
